@@ -51,6 +51,10 @@ class PiecewiseTreeRegressor(DecisionTreeRegressor):
         replace = None
         if isinstance(self.criterion, str):
             if self.criterion == "mselin":
+                # the compiled criterion and the leaf regressions read X
+                # as a C-contiguous float64 buffer
+                X = numpy.ascontiguousarray(X, dtype=numpy.float64)
+                y = numpy.asarray(y)
                 from .piecewise_tree_regression_criterion_linear import (
                     LinearRegressorCriterion,
                 )
